@@ -396,6 +396,9 @@ pub struct TlsPeer {
     pub addr: String,
     pub conns: tokio::sync::mpsc::UnboundedReceiver<TlsPeerConn>,
     pub tcp_accepts: Arc<std::sync::atomic::AtomicUsize>,
+    /// while set, accepted TCP connections are not answered (their TLS handshake does not progress): lets a
+    /// script act while the client is in the middle of dialling a session
+    pub hold_handshakes: Arc<std::sync::atomic::AtomicBool>,
     task: tokio::task::JoinHandle<()>,
 }
 
@@ -415,6 +418,8 @@ pub async fn start_tls_peer() -> Option<TlsPeer> {
     let (tx, rx) = tokio::sync::mpsc::unbounded_channel();
     let tcp_accepts = Arc::new(std::sync::atomic::AtomicUsize::new(0));
     let ta = tcp_accepts.clone();
+    let hold_handshakes = Arc::new(std::sync::atomic::AtomicBool::new(false));
+    let hold = hold_handshakes.clone();
     let task = tokio::spawn(async move {
         loop {
             let Ok((s, _)) = l.accept().await else { continue };
@@ -422,7 +427,11 @@ pub async fn start_tls_peer() -> Option<TlsPeer> {
             let _ = s.set_nodelay(true);
             let acceptor = acceptor.clone();
             let tx = tx.clone();
+            let hold = hold.clone();
             tokio::spawn(async move {
+                while hold.load(std::sync::atomic::Ordering::SeqCst) {
+                    tokio::time::sleep(Duration::from_millis(10)).await;
+                }
                 let Ok(mut tls) = acceptor.accept(s).await else { return };
                 let mut head = [0u8; 34];
                 if tls.read_exact(&mut head).await.is_err() {
@@ -439,7 +448,7 @@ pub async fn start_tls_peer() -> Option<TlsPeer> {
             });
         }
     });
-    Some(TlsPeer { addr, conns: rx, tcp_accepts, task })
+    Some(TlsPeer { addr, conns: rx, tcp_accepts, hold_handshakes, task })
 }
 
 /// raw TLS client towards a real server (for C06 e2e / C20): returns the TLS stream
